@@ -176,7 +176,13 @@ func scenarioServer(sp Spec, oc *Outcome) {
 			mcast = true
 		}
 	}
-	fx, err := startServer(rec, srvOpts{writeTimeout: wt, withStream: true, sndbuf: sndbuf, multicast: mcast, seed: sp.Seed})
+	back := false
+	for _, p := range sp.Peers {
+		if p.Mode == "backchan-udp" {
+			back = true
+		}
+	}
+	fx, err := startServer(rec, srvOpts{writeTimeout: wt, withStream: true, sndbuf: sndbuf, multicast: mcast, seed: sp.Seed, backChannel: back})
 	if err != nil {
 		oc.SetupErr = err.Error()
 		return
@@ -218,6 +224,7 @@ func scenarioServer(sp Spec, oc *Outcome) {
 			if sp.Procs == 1 || sp.Hammer {
 				r.flowWait = 6 * time.Second
 			}
+			r.backCount = fx.h.nBack.Load
 			raws = append(raws, r)
 			continue
 		}
@@ -414,7 +421,14 @@ func scenarioServer(sp Spec, oc *Outcome) {
 
 	// wind down the harness side, then look at the whole process
 	for _, r := range raws {
+		if r.lateSend != nil {
+			r.lateSend() // datagrams from the old address after everything the server had was closed
+			time.Sleep(2 * time.Millisecond)
+		}
 		r.close()
+		if r.late != "" {
+			oc.LatePackets = append(oc.LatePackets, r.late)
+		}
 		if r.flow != "" {
 			oc.PeerFlow = append(oc.PeerFlow, r.flow)
 		}
